@@ -79,7 +79,22 @@ class SpecTask(Task):
             z = oracles.features_from_decoded(spec, self.transform_solution(x))
         else:
             z = oracles.features_from_position(spec, x)
-        return oracles.objective_value(spec, z)
+        value = oracles.objective_value(spec, z)
+        if spec["objective"].get("array_rows") and isinstance(value, list):
+            # a user objective that hands back a stored float64 array (a row of a payoff table kept in task.data)
+            rows = self.data["rows"]
+            k = int(abs(sum(v for v in value if v == v and abs(v) != float("inf"))) * 7) % len(rows)
+            return rows[k]
+        if spec["objective"].get("mutates_argument"):
+            # a user objective that scribbles on the list it was given (rescaling in place, appending a slack term):
+            # the library must have handed it a copy
+            try:
+                for j in range(len(x)):
+                    x[j] = 1e30
+                x.append(7)
+            except (TypeError, AttributeError):
+                pass
+        return value
 
 
 def _plain(x):
@@ -120,6 +135,11 @@ def build_task(task_spec, cls=SpecTask):
         minmax=task_spec.get("minmax", "min"),
         data={"spec": task_spec, "coords": oracles.flat_coords(task_spec)},
     )
+    if task_spec["objective"].get("array_rows"):
+        import numpy as np
+        k = len(task_spec["objective"]["terms"])
+        salt = task_spec["objective"].get("salt", 0)
+        kw["data"]["rows"] = np.array([[oracles._tab(salt, r, c) + 6.0 for c in range(k)] for r in range(5)], dtype=float)
     if task_spec.get("weights") is not None:
         kw["objective_weights"] = list(task_spec["weights"])
     if task_spec.get("seed") is not None:
